@@ -142,6 +142,9 @@ def generate(package="numeric", spec_dir="specs"):
                     report["notes"][key] = notes
                     prelude = prelude or tr.uses_while
                 head = per["float"].split(":=")[0]
+                for ln in per["float"].splitlines():       # auxiliary (loop) definitions may precede the function
+                    if ln.startswith(f"def {py2lean.san(lname)} "):
+                        head = ln.split(":=")[0]
                 info = {"nparams": spec["nparams"], "fun_params": sp.get("fun_params"),
                         "tuple": " × " in head, "rejects": f"def {py2lean.san(lname)}_rejects" in per["float"],
                         "ntuple": head.count(" × ") + 1 if " × " in head else 0,
